@@ -63,7 +63,8 @@ def c18(tier, seed, wd, ev):
     return 0
 
 SIM_CFGS = {
-    'quick': [dict(count=4, watchers=1, blocked=-1, dur=17), dict(count=1, watchers=2, blocked=-1, dur=17), dict(count=7, watchers=0, blocked=-1, dur=17)],
+    'quick': [dict(count=4, watchers=1, blocked=-1, dur=17), dict(count=1, watchers=2, blocked=-1, dur=17), dict(count=7, watchers=0, blocked=-1, dur=17),
+              dict(count=4, watchers=1, blocked=2, dur=17)],
     'thorough': [dict(count=c, watchers=w, blocked=-1, dur=27) for c in (1, 2, 4, 7) for w in (0, 2)] +
                 [dict(count=4, watchers=1, blocked=2, dur=62), dict(count=7, watchers=0, blocked=3, dur=62)],
 }
@@ -101,7 +102,7 @@ def c17(tier, seed, wd, ev):
     with open(log, 'w') as o:
         for i, c in enumerate(cfgs):
             o.write(json.dumps({'k': 'cfg', 'cfg': i, 'count': c['count'], 'watchers': c['watchers'], 'blocked': c['blocked'], 'dur': c['dur'],
-                                'min_blocks': (max(1, (c['dur'] - 4) // 5) if c['blocked'] < 0 else 3)}) + '\n')
+                                'min_blocks': (max(1, (c['dur'] - 4) // 5) if c['blocked'] < 0 else 2)}) + '\n')
         for rows, _ in res:
             for r_ in rows:
                 o.write(json.dumps(dict(r_, k='accept')) + '\n')
@@ -114,12 +115,57 @@ def c17(tier, seed, wd, ev):
                 'one row per "approving block" log line (node, height, hash); non-trivial = distinct (configuration, height) decided; TLC checks the rows against spec/SimApp.tla',
         'samples': [r_ for rows, _ in res for r_ in rows][:5], 'configurations': cfgs, 'traces_validated_against_impl': len(cfgs),
     }
-    ev['assumptions'] = ['block interval 5 s is hard-coded in internal/consensus.New; lower bound on decided heights = (duration - 4 s) / 5 s for fault-free runs, 3 with a blocked validator']
+    ev['assumptions'] = ['block interval 5 s is hard-coded in internal/consensus.New; lower bound on decided heights = (duration - 4 s) / 5 s for fault-free runs, 2 with a blocked validator (whose own node must keep up too)']
     if viols:
         rp = os.path.join(vlib.VERIF, 'replays', 'C17-sim.ndjson'); os.makedirs(os.path.dirname(rp), exist_ok=True)
         shutil.copy(log, rp)
         print('VIOLATION property=C17 replay=%s' % rp)
         print('  %d rule failures, e.g. %s' % (len(viols), viols[0]))
         ev['violations'] = len(viols)
+        return 1
+    return 0
+
+
+def c19(tier, seed, wd, ev):
+    vh = vlib.build_harness(wd)
+    log = os.path.join(wd, 'payload.ndjson')
+    r = vlib.sh([vh, 'payload', '-seed', str(seed), '-out', log] + (['-full'] if tier != 'quick' else []), timeout=3000)
+    if r.returncode != 0:
+        raise Infra('payload driver failed: ' + r.stdout[-1500:])
+    viols, out = tlc_log('PayloadAlgebra', log, wd, 'payload')
+    rows = [json.loads(l) for l in open(log)]
+    kf = vlib.known_findings()
+    opened = [e for e in kf['open'] if 'C19' in e['properties']]
+    new, known = [], {}
+    for v in viols:
+        parts = [p.strip().strip('"') for p in v[2].split(',')]
+        key = (v[1], parts[0], parts[1])          # (kind, obj, field)
+        hit = [e for e in opened if any(tuple(c) == key for c in e.get('cases', []))]
+        if hit:
+            known.setdefault(hit[0]['id'], []).append(key)
+        else:
+            new.append(key + (parts[2],))
+    for kid, l in known.items():
+        e = [x for x in opened if x['id'] == kid][0]
+        print('KNOWN-FINDING: property=C19 %s: %s (%d rows)' % (kid, e['what'][:150], len(l)))
+    ev['level'] = 'exploration'
+    ev['coverage'] = {
+        'evaluations': len(rows), 'distinct_nontrivial': len({(r_['k'], r_['obj'], r_['field'], r_['n']) for r_ in rows}),
+        'rule': 'one row per case computed with the real internal/consensus, internal/crypto, internal/merkle code: single-field mutations of every payload kind and of blocks '
+                '(hash must / must not change), encode-decode round trips, every truncation and one bit flip per byte of valid encodings plus random bytes (no panic), proposal and '
+                'responses rebuilt from a recovery message from each sender position (direct and after the wire), signature verification under same/other key and data, Merkle roots '
+                'under leaf replacement / swap / drop / duplication for 1..5 leaves; rows are distinct by (kind, object, field, n); TLC checks them against spec/PayloadAlgebra.tla',
+        'samples': rows[:4], 'known_finding_rows': {k: len(v) for k, v in known.items()},
+    }
+    ev['assumptions'] = ['value-level clauses only: decoder robustness is sampled (structured corruptions), cryptographic soundness of SHA-256/ECDSA is not addressed']
+    if new:
+        rp = os.path.join(vlib.VERIF, 'replays', 'C19-rows.ndjson'); os.makedirs(os.path.dirname(rp), exist_ok=True)
+        with open(rp, 'w') as o:
+            for r_ in rows:
+                if any((r_['k'], r_['obj'], r_['field']) == n[:3] for n in new):
+                    o.write(json.dumps(r_) + '\n')
+        print('VIOLATION property=C19 replay=%s' % rp)
+        print('  %d rows contradict spec/PayloadAlgebra.tla, e.g. %s' % (len(new), new[0]))
+        ev['violations'] = len(new)
         return 1
     return 0
